@@ -256,7 +256,7 @@ func main() {
 	p := mon.DefaultParams
 	r.SetRule("case = one run of the real internal/simulation binary (built from the tree under test, plain or -race) in its own " +
 		"network namespace with flags (count, watchers, blocked, txblock, duration) and a GOMAXPROCS value, list fixed by (tier, seed); " +
-		"judged offline from its zap log: same hash per height on all nodes, per-node heights 1,2,3.. without gap/repeat, every non-blocked " +
+		"judged offline from its zap log: same hash per height on all nodes, each block's prev = the node's previous block, per-node heights 1,2,3.. without gap/repeat, every non-blocked " +
 		"validator reaches floor(D/5s)-2 (>=2) heights and still approves in the last 12 s, average approval gap >= 2.5 s, watch-only nodes " +
 		"send nothing, no race report; non-trivial = every required validator decided >= 2 heights; distinct key = (flags, race, GOMAXPROCS, max height)")
 	r.Assume("goroutine schedules are sampled (real scheduler, GOMAXPROCS in {1,2,4,8,16}, -race instrumentation changes timing), not enumerated")
